@@ -537,6 +537,23 @@ def ff_designs():
     blk(d, "cc", ("c0",), [as_(View(co), add(rd(View(ci)), lit(4, 3), 4))])
     d.family = "ff"
     out.append(d)
+    # a list of signals in which element 0 is NOT a register (driven by a net) while the later elements are
+    # registers written through constant indices, enable-guarded and without a reset branch: a register that is
+    # not assigned in the first cycles must hold (added after seeded change C07-E: the double-buffer flag of a
+    # list read once, from element 0)
+    d = _mk("F%d" % k)
+    k += 1
+    a = d.add_sig((), "a", "in", 4)
+    en = d.add_sig((), "en", "in", 1)
+    pipe = [d.add_sig((), "pipe%d" % j, "wire", 4, arr=("pipe", j, 3)) for j in range(3)]
+    o = d.add_sig((), "o", "out", 4)
+    pipe[1].reg = pipe[2].reg = True
+    conn(d, View(a), View(pipe[0]), ())
+    blk(d, "fp", (), [{"k": "if", "c": rd(View(en)), "th": [as_(View(pipe[1]), rd(View(pipe[0]))), as_(View(pipe[2]), rd(View(pipe[1])))],
+                       "el": []}], "ff")
+    blk(d, "co", (), [as_(View(o), xor(rd(View(pipe[2])), rd(View(pipe[0])), 4))])
+    d.family = "ff"
+    out.append(d)
     # presets: registers and wires loaded with literals written as BitsN(v), as the int v and as the
     # negative int v - 2^w (`s.cnt <<= -1` = all ones); added after seeded change C07-B (the two's
     # complement mask of an int assigned with <<= dropped: the committed value left [0, 2^n))
